@@ -572,6 +572,10 @@ func (g *c10Gen) genQueries() {
 		text := strings.Join(p, "")
 		if g.r.chance(1, 12) {
 			text = strings.Join(g.mutate(p), "")
+		} else if g.r.chance(1, 8) {
+			// read a set symbol outside its loop: the cursor state a set function left behind is visible
+			text = strings.TrimRight(text, " \t\r\n") + " " + pick(g.r, []string{"and", "or"}) + " count(" + pick(g.r, g.setIdents) + ") " +
+				pick(g.r, []string{"=", "!="}) + " null"
 		}
 		g.emitQ(c10RootSchema, g.r.chance(1, 3), g.rowsFor(), text)
 	}
